@@ -7,6 +7,7 @@ import (
 	"fmt"
 	"hash/crc32"
 	"io"
+	"math"
 
 	"github.com/klauspost/compress/zstd"
 	"github.com/pierrec/lz4/v4"
@@ -433,6 +434,10 @@ func loadChunk(l *Lexer, recordLen uint64) error {
 			return ErrChunkTooLarge
 		}
 		if uint64(len(l.uncompressedChunk)) < uncompressedSize {
+			// sizes of 2^63 and above would wrap when doubled
+			if uncompressedSize > math.MaxInt32 {
+				return fmt.Errorf("failed to allocate chunk buffer: %w", ErrLengthOutOfRange)
+			}
 			l.uncompressedChunk, err = makeSafe(uncompressedSize * 2)
 			if err != nil {
 				return fmt.Errorf("failed to allocate chunk buffer: %w", err)
